@@ -445,17 +445,29 @@ func c20Build(c *fw.Ctx, p c20Param) *schedInst {
 				}
 			}
 		}
-		// a session whose chunks were sent concurrently (retries, status queries) still completes with exactly its bytes
+		// a session whose requests were in flight together (retries, status queries) has received exactly the bytes its
+		// client sent - it says so when asked, and completes with them
 		if sessURI != "" {
-			r1 := d.Do(gcs.ReqResumableChunk(sessURI, []byte("abc"), "bytes 0-2/*", false, false))
+			q := d.Do(gcs.ReqResumableChunk(sessURI, nil, "bytes */*", false, false))
 			switch {
-			case r1.Status >= 400 && r1.Panic == "": // completed by the mix: the session is gone (how that is said is C02's / the input catalogue's subject)
-			case r1.Status == 308:
+			case q.Panic != "":
+				return "session", "status query after the mix: " + q.Panic, "session"
+			case q.Status >= 400: // completed by the mix: the session is gone (how that is said is the input catalogue's subject)
+			case q.Status == 308:
+				switch rg := q.Header.Get("Range"); rg {
+				case "bytes=0-2":
+				case "":
+					if r1 := d.Do(gcs.ReqResumableChunk(sessURI, []byte("abc"), "bytes 0-2/*", false, false)); r1.Status != 308 {
+						return "session", fmt.Sprintf("after the mix %v the first chunk of the (empty) session is answered %d %.100q", p.Threads, r1.Status, r1.Body), "session"
+					}
+				default:
+					return "sessrange", fmt.Sprintf("after the mix %v the session reports %q as received; its client only ever sent the three bytes 0-2 (twice at most, as a retry)", p.Threads, rg), "sessrange"
+				}
 				if r2 := d.Do(gcs.ReqResumableChunk(sessURI, []byte("def"), "bytes 3-5/6", false, false)); r2.Status != 200 {
-					return "session", fmt.Sprintf("after the mix %v the session does not complete: re-sent first chunk 308, final chunk %d %.100q", p.Threads, r2.Status, r2.Body), "session"
+					return "session", fmt.Sprintf("after the mix %v the session does not complete: final chunk %d %.100q", p.Threads, r2.Status, r2.Body), "session"
 				}
 			default:
-				return "session", fmt.Sprintf("after the mix %v the re-sent first chunk of the session is answered %d %.100q %s", p.Threads, r1.Status, r1.Body, r1.Panic), "session"
+				return "session", fmt.Sprintf("after the mix %v the status query of the session is answered %d %.100q", p.Threads, q.Status, q.Body), "session"
 			}
 			if r := d.Do(gcs.ReqGetMedia("json", "b", "s")); r.Status != 200 || string(r.Body) != "abcdef" {
 				return "sessbytes", fmt.Sprintf("after the mix %v and the completion of the session the object holds %d %q, sent \"abcdef\"", p.Threads, r.Status, r.Body), "sessbytes"
@@ -497,11 +509,15 @@ func c20GcsReqs(name, sess string) []gcs.HTTPReq {
 	// requests of ONE resumable session (b/s, "abcdef" in two chunks), as a client sends them when it retries a chunk
 	// whose answer is late while the first attempt is still being served, or asks for the status meanwhile
 	case "SessA", "SessB":
-		return []gcs.HTTPReq{gcs.ReqResumableChunk(sess, []byte("abc"), "bytes 0-2/*", false, false)}
+		r := gcs.ReqResumableChunk(sess, []byte("abc"), "bytes 0-2/*", false, false)
+		r.SlowBody = true // the body of a chunk arrives while other requests of the session are served
+		return []gcs.HTTPReq{r}
 	case "SessQ":
 		return []gcs.HTTPReq{gcs.ReqResumableChunk(sess, nil, "bytes */*", false, false)}
 	case "SessF":
-		return []gcs.HTTPReq{gcs.ReqResumableChunk(sess, []byte("def"), "bytes 3-5/6", false, false)}
+		r := gcs.ReqResumableChunk(sess, []byte("def"), "bytes 3-5/6", false, false)
+		r.SlowBody = true
+		return []gcs.HTTPReq{r}
 	case "GzUp1", "GzUp2":
 		// a valid upload whose request body is gzip-compressed and arrives slowly
 		obj := "g" + strings.TrimPrefix(name, "GzUp")
@@ -618,6 +634,9 @@ func raceSignature(report string) string {
 
 // exploreRace explores the scenario and, in race builds, turns every new race-detector report
 // into a violation attributed to the schedule during which it appeared.
+// c20Abandoned: some execution of this worker process ended with threads that can never run again.
+var c20Abandoned bool
+
 func exploreRace(c *fw.Ctx, sc *schedScenario, bound int, seenLen *int) int64 {
 	e := &sched.Explorer{Bound: bound, Deadline: c.Deadline}
 	first := true
@@ -641,6 +660,9 @@ func exploreRace(c *fw.Ctx, sc *schedScenario, bound int, seenLen *int) int64 {
 			return x
 		}
 		cs := schedCase{Scenario: sc.Name, Param: sc.Param, Choices: choices}
+		if x != nil && x.Deadlock {
+			c20Abandoned = true
+		}
 		if class != "" {
 			c.Violate(fmt.Sprintf("C20:%s:%s", sc.Name, class), detail+fmt.Sprintf("\n  scenario %s, schedule choices %v", sc.Name, choices), cs, func() string {
 				_, cl2, _, _ := runSchedOnce(sc, choices)
@@ -661,6 +683,13 @@ func exploreRace(c *fw.Ctx, sc *schedScenario, bound int, seenLen *int) int64 {
 					}
 					sig := raceSignature(rep)
 					if sig == "" {
+						if c20Abandoned {
+							// an execution of this worker ended in "no enabled thread": its threads are parked for good and
+							// were never joined, so nothing orders what they did to harness state before what the threads of
+							// later executions do to it. Such a report says nothing about the emulator or the harness.
+							c.Note("harness_race_after_abandoned_threads", 1)
+							continue
+						}
 						c.InternalError("race report that involves no emulator code (harness race):\n" + rep)
 						continue
 					}
